@@ -354,45 +354,44 @@ inductive Step where
   | ret (o : Out) (s : RSt)
   | go (s : RSt)
 
-/-- everything in `next` before the header branch: the pending delimiter check, the item header
-branch, the pixel data item value / offset table branch, the value branch -/
+/-- the branches of `next` between the delimiter check and the header branch: the item header branch,
+the pixel data item value / offset table branch, the value branch (`.go`: none applies) -/
+def preBody (cfg : Cfg) (be graceful : Bool) (s : RSt) : Step :=
+  if s.inSeq then
+    let (o, s) := nextInSeq cfg be graceful s
+    .ret o s
+  else match s.stack with
+    | ⟨true, len, true, _⟩ :: _ =>
+      if len = undefinedLen then .ret (.err .undefinedItemLength) s
+      else if s.otNext then
+        let s := { s with otNext := false, pending := true }
+        match readU32ToVec be len s with
+        | some (t, s) => .ret (.tok (.offsetTable t)) s
+        | none => .ret (.err .readItemValue) { s with src := [] }
+      else
+        let s := { s with pending := true }
+        let (v, s) := readToVec len s
+        .ret (.tok (.itemValue v)) s
+    | _ =>
+      match s.last with
+      | some h =>
+        if h.tag = pixelDataTag ∧ h.len = undefinedLen then
+          let (o, s) := nextPixelStart cfg be s
+          .ret o s
+        else match readValue cfg be h s with
+          | none => .ret (.err .readValue) { s with hardBreak := true, last := none }
+          | some (v, s) => .ret (.tok (.primitiveValue v)) { s with last := none, pending := true }
+      | none => .go s
+
+/-- everything in `next` before the header branch: the pending check of item / sequence delimitation
+by explicit length (`update_seq_delimiters`), then `preBody` -/
 def preHeader (cfg : Cfg) (be graceful : Bool) (s : RSt) : Step :=
-  -- item or sequence delimitation logic for explicit lengths
-  let r : Step :=
-    if s.pending then
-      match updateSeqDelimiters s with
-      | .tok t s' => .ret (.tok t) s'
-      | .err s' => .ret (.err .inconsistentSequenceEnd) { s' with hardBreak := true }
-      | .none s' => .go s'
-    else .go s
-  match r with
-  | .ret o s => .ret o s
-  | .go s =>
-    if s.inSeq then
-      let (o, s) := nextInSeq cfg be graceful s
-      .ret o s
-    else match s.stack with
-      | ⟨true, len, true, _⟩ :: _ =>
-        if len = undefinedLen then .ret (.err .undefinedItemLength) s
-        else if s.otNext then
-          let s := { s with otNext := false, pending := true }
-          match readU32ToVec be len s with
-          | some (t, s) => .ret (.tok (.offsetTable t)) s
-          | none => .ret (.err .readItemValue) { s with src := [] }
-        else
-          let s := { s with pending := true }
-          let (v, s) := readToVec len s
-          .ret (.tok (.itemValue v)) s
-      | _ =>
-        match s.last with
-        | some h =>
-          if h.tag = pixelDataTag ∧ h.len = undefinedLen then
-            let (o, s) := nextPixelStart cfg be s
-            .ret o s
-          else match readValue cfg be h s with
-            | none => .ret (.err .readValue) { s with hardBreak := true, last := none }
-            | some (v, s) => .ret (.tok (.primitiveValue v)) { s with last := none, pending := true }
-        | none => .go s
+  if s.pending then
+    match updateSeqDelimiters s with
+    | .tok t s' => .ret (.tok t) s'
+    | .err s' => .ret (.err .inconsistentSequenceEnd) { s' with hardBreak := true }
+    | .none s' => preBody cfg be graceful s'
+  else preBody cfg be graceful s
 
 /-- the header branch of `next`, given the result of `Decode::decode_header` on the source:
 `StatefulDecoder::decode_header` (position update, Pixel Representation VR override), then the
@@ -436,11 +435,9 @@ def next (cfg : Cfg) (D : Dec σ) : Nat → σ × RSt → Out × (σ × RSt)
     else match preHeader cfg D.be D.itemEofGraceful s with
       | .ret o s => (o, (d, s))
       | .go s =>
-        match D.header d s.src with
-        | (r, d) =>
-          match headerStep cfg r s with
-          | .ret o s => (o, (d, s))
-          | .go s => next cfg D fuel (d, s)
+        match headerStep cfg (D.header d s.src).1 s with
+        | .ret o s' => (o, ((D.header d s.src).2, s'))
+        | .go s' => next cfg D fuel ((D.header d s.src).2, s')
 
 /-- one record of a run: the output, `position()` after it, bytes consumed from the source so far -/
 structure Rec where
